@@ -198,6 +198,68 @@ def oracle_truncating(case, r):
     return None, worst
 
 
+def gen_t0(rng):
+    """energy-type observables AT t = 0 on emu-mps (before any step has run): default |g…g> or a custom random
+    product state, 2-8 atoms, per-atom drives"""
+    n = rng.randint(2, 8)
+    c = chain_case(n, rng.uniform(6.5, 9.0), 1.0, 0.0, 2, rng.choice([1e-5, 1e-6]))
+    om = [rng.uniform(2.0, 12.0) for _ in range(n)]
+    de = [rng.uniform(-8.0, 8.0) for _ in range(n)]
+    c["omega"], c["delta"] = [om, om], [de, de]
+    c["grid_kind"] = "t0"
+    c["prod"] = None
+    if rng.random() < 0.6:
+        c["prod"] = [(rng.gauss(0, 1), rng.gauss(0, 1), rng.gauss(0, 1), rng.gauss(0, 1)) for _ in range(n)]   # (re g, im g, re r, im r)
+    return c
+
+
+def run_t0(case):
+    import torch
+    from harness import compat
+    from pulser.backend import Energy, EnergySecondMoment, EnergyVariance
+    compat.install()
+    from emu_mps import MPS
+    f64 = lambda x: np.array(x, dtype=np.float64)
+    n = case["n"]
+    ev = [0.0, 0.5, 1.0]
+    obs = [Energy(evaluation_times=ev), EnergySecondMoment(evaluation_times=ev), EnergyVariance(evaluation_times=ev)]
+    kw = {}
+    psi = np.zeros(2 ** n, dtype=complex)
+    psi[0] = 1.0
+    if case.get("prod"):
+        locs = []
+        for a, b, c_, d in case["prod"]:
+            v = np.array([a + 1j * b, c_ + 1j * d])
+            locs.append(v / np.linalg.norm(v))
+        psi = np.array([1.0 + 0j])
+        for v in locs:
+            psi = np.kron(psi, v)                       # atom 0 most significant; index 0 = g, 1 = r
+        kw["initial_state"] = MPS([torch.tensor(v, dtype=torch.complex128).reshape(1, 2, 1) for v in locs],
+                                  num_gpus_to_use=0, eigenstates=("r", "g"))
+    data = compat.make_sequence_data(f64(case["omega"]), f64(case["delta"]), f64(case["phi"]), f64(case["U"]), case["times"])
+    res = compat.run_mps(data, compat.mps_config(observables=obs, precision=case["precision"], dt=10, **kw))
+    H = ic.dense_h(case["omega"][0], case["delta"][0], case["phi"][0], case["U"])
+    hp = H @ psi
+    e, e2 = float(np.real(np.vdot(psi, hp))), float(np.real(np.vdot(hp, hp)))
+    return dict(got=(float(res.energy[0]), float(res.energy_second_moment[0]), float(res.energy_variance[0])),
+                want=(e, e2, e2 - e * e))
+
+
+def oracle_t0(case, r):
+    """at t = 0 the reported <H>, <H²>, variance are those of the initial state under the Hamiltonian of the first
+    step (what emu-mps builds before the loop). <H²> goes through the truncated H@H product (finding D21-C28: 1e-5
+    relative): allowance 2e-4 relative on the second moment and the variance, 1e-8·max(1, ‖H‖ bound) on the energy."""
+    hb = h_bound(case, 0)
+    (e, e2, var), (we, we2, wvar) = r["got"], r["want"]
+    if not abs(e - we) <= 1e-8 * max(1.0, hb):
+        return f"energy at t=0 is {e!r}, the initial state under the first step's Hamiltonian has {we!r}"
+    if not abs(e2 - we2) <= 2e-4 * max(1.0, we2):
+        return f"energy second moment at t=0 is {e2!r}, the initial state under the first step's Hamiltonian has {we2!r}"
+    if not abs(var - wvar) <= 2e-4 * max(1.0, we2):
+        return f"energy variance at t=0 is {var!r}, the initial state under the first step's Hamiltonian has {wvar!r}"
+    return None
+
+
 class CutoffTape:
     """wraps emu_mps.utils._determine_cutoff_index for the duration of a run (real call, arguments and answer
     recorded): every two-site truncation may discard at most precision² of squared weight — "normalised to
@@ -348,7 +410,8 @@ def check(rep: Report, tier: str, seed: int) -> None:
                 "emu-sv 7-9 atoms with 0.3-2 us steps) where the only acceptable outcomes are RecursionError or conservation; "
                 "plus a truncating emu-mps stream (6-8 atom entangling chains, max_bond_dim 2-4, precision 1e-2/1e-3) where the "
                 "state every observable receives must have norm 1 to 1e-10 and occupation/energy must be those of that state; "
-                "plus 10-12 atom runs whose bond dimension exceeds 16. Every emu-mps run is executed under a tape on "
+                "plus 10-12 atom runs whose bond dimension exceeds 16; plus a t=0 leg (emu-mps Energy / EnergySecondMoment / "
+                "EnergyVariance evaluated at t=0 on the default and on custom product initial states vs dense). Every emu-mps run is executed under a tape on "
                 "_determine_cutoff_index: each truncation may discard at most precision^2 of squared weight. "
                 "non-trivial = window of >= 3 steps or >= 2 windows")
     rep.assumptions = [
@@ -429,6 +492,20 @@ def check(rep: Report, tier: str, seed: int) -> None:
         worst["mps"] = max(worst["mps"], w)
         if msg:
             rep.fail("[mps, bond > 16] " + msg, ic.ser_case(case, result=r))
+    # t = 0 leg (emu-mps): energy, second moment and variance of the initial state, default and custom
+    for _ in range(8 if tier == "quick" else 150):
+        case = gen_t0(rng)
+        rep.case(key=("t0", case["n"], case["omega"][0][0], case["prod"] is not None), nontrivial=True)
+        rep.hist("t0_initial_state", "custom product" if case["prod"] else "default")
+        try:
+            r = run_t0(case)
+        except Exception as e:
+            k = classify_exc(e)
+            rep.fail(f"real mps back-end raised {type(e).__name__}: {e}", ic.ser_case(case, stream="t0"), klass=k)
+            continue
+        msg = oracle_t0(case, r)
+        if msg:
+            rep.fail("[mps, t=0] " + msg, ic.ser_case(case, stream="t0"))
     # truncating stream (emu-mps, saturated bond dimension / coarse precision): normalised state + consistency
     worst["mps_truncating"] = 0.0
     lost = 0
@@ -491,7 +568,9 @@ def replay(rep: Report, path: str) -> int:
         try:
             tape = CutoffTape()
             with tape:
-                if case.get("stream") == "truncating":
+                if case.get("stream") == "t0":
+                    msg = oracle_t0(case, run_t0(case))
+                elif case.get("stream") == "truncating":
                     msg = oracle_truncating(case, run_truncating(case))[0]
                 else:
                     msg = oracle(case, run_case(case))[0]
